@@ -1,1 +1,83 @@
-From TL Require Import Base.Base.
+(* C04 - Self tail calls use constant stack and do not change meaning.       *)
+(* Statements only; the proofs are in Proofs/TailCalls.v and Proofs/EvalRel.v. *)
+From TL Require Import Base.Base Model.Reader Model.Printer Model.Store Model.Eval Model.Init.
+From TL Require Import Proofs.EvalRel Proofs.TailCalls Proofs.Calls.
+Local Open Scope list_scope.
+
+(* mark_tail_calls rewrites EXACTLY the self-calls in tail position (the last *)
+(* form of the body; recursively the tail of progn / let / let*, both branches  *)
+(* of if, the body of every cond clause) into the marker form                   *)
+(* (list Bounce . args); every other part of the body - in particular every     *)
+(* self-call that is not in tail position - is unchanged (mt_body / mt_form).   *)
+Theorem C04_only_tail_self_calls_rewritten : forall fuel name body body',
+  mark_tail fuel name body = Ok body' -> mt_body name body body'.
+Proof. exact mark_tail_spec. Qed.
+
+(* the marker form evaluates the argument forms of the tail call once each,    *)
+(* left to right, in the callee's current bindings - as the call would          *)
+Theorem C04_marker_evaluates_arguments : forall F rec load args s,
+  (forall s0, rec (TEval Bounce) s0 = (Ok Bounce, s0)) ->
+  apply_prim F rec load PList (Cons Bounce args) s =
+  bind (eval_each rec (items args)) (fun vs => ret (Cons Bounce (of_list vs Nil))) s.
+Proof. exact marker_evaluates_arguments. Qed.
+
+(* a call = first activation, then the trampoline loop; one iteration binds   *)
+(* the parameters to the marker's values WITHOUT evaluating them again, runs    *)
+(* the body, unbinds; the loop ends with the first result that is no marker     *)
+Theorem C04_call_enters_trampoline : forall F f evalp ps body args s,
+  run F (S f) (TCall evalp (Lam ps body) args) s =
+  bind (eval_function (run F f) evalp ps body args) (fun r => run F f (TTramp ps body r)) s.
+Proof. exact call_enters_trampoline. Qed.
+Theorem C04_trampoline_iteration : forall F f ps body vals s,
+  run F (S f) (TTramp ps body (Cons Bounce vals)) s =
+  bind (eval_function (run F f) false ps body vals) (fun r' => run F f (TTramp ps body r')) s.
+Proof. exact trampoline_iteration. Qed.
+Theorem C04_trampoline_exit : forall F f ps body r s, is_bounced r = false ->
+  run F (S f) (TTramp ps body r) s = (Ok r, s).
+Proof. exact trampoline_exit. Qed.
+Theorem C04_values_not_reevaluated : forall rec ps vs s,
+  zip_args rec false ps vs s =
+  match zip_pure ps (firstn (n_used ps (List.length vs)) vs) with
+  | Ok b => (Ok (b, skipn (n_used ps (List.length vs)) vs), s)
+  | Err e => (Err e, s) | Panic n => (Panic n, s) | Fuel => (Fuel, s)
+  end.
+Proof. exact zip_args_values_untouched. Qed.
+
+(* for ANY number of iterations, any outcome: the binding stacks are left      *)
+(* balanced and no panic site is reached; in the model the loop is iterative     *)
+(* (each iteration is one step of the same TTramp task: no nesting of            *)
+(* activations grows with the number of iterations)                              *)
+Theorem C04_trampoline_balanced : forall F f ps body r s r' s',
+  run F f (TTramp ps body r) s = (r', s') -> r' <> Fuel -> Inv s s' /\ np r'.
+Proof. exact trampoline_balanced. Qed.
+
+Print Assumptions C04_only_tail_self_calls_rewritten. Print Assumptions C04_marker_evaluates_arguments.
+Print Assumptions C04_call_enters_trampoline. Print Assumptions C04_trampoline_iteration.
+Print Assumptions C04_trampoline_exit. Print Assumptions C04_values_not_reevaluated.
+Print Assumptions C04_trampoline_balanced.
+
+(* non-vacuity: what is stored for a definition with tail and non-tail self   *)
+(* calls; a loop of 200 iterations with &optional/&rest, through funcall and     *)
+(* mapcar, equal to the same definition written with (funcall 'f ..), which is   *)
+(* not rewritten (ordinary recursion)                                            *)
+Definition F0 : fops :=
+  {| f_add := fun _ _ => 0%Z; f_sub := fun _ _ => 0%Z; f_mul := fun _ _ => 0%Z;
+     f_div := fun _ _ => 0%Z; f_rem := fun _ _ => 0%Z; f_pow := fun _ _ => 0%Z;
+     f_max := fun _ _ => 0%Z; f_min := fun _ _ => 0%Z; f_of_int := fun z => z;
+     f_to_int := fun z => z; f_round := fun z => z; f_trunc := fun z => z;
+     f_lt := Z.ltb; f_le := Z.leb; f_eq := Z.eqb; f_is_finite := fun _ => true;
+     f_to_dec := fun _ => []; f_of_dec := fun _ => None |}.
+Definition ev0 (n : nat) (p : string) := fst (eval_string F0 n (s2t p) (init_state [] None)).
+Example C04_stored_body :
+  match ev0 40 "(defun f (n) (if (< n 1) 0 (progn (f 0) (f (- n 1))))) f" with
+  | Ok (Lam _ body) => print F0 body = s2t "((if (< n 1) 0 (progn (f 0) (list Bounce (- n 1)))))"
+  | _ => False
+  end.
+Proof. vm_compute. reflexivity. Qed.
+Example C04_same_as_recursion :
+  ev0 900 "(defun f (n &optional acc &rest r) (cond ((< n 1) (list acc r)) (t (f (- n 1) (+ (if acc acc 0) n) n r)))) (list (f 200) (funcall 'f 3 1) (mapcar 'f '(1 2)))"
+  = ev0 2500 "(defun f (n &optional acc &rest r) (cond ((< n 1) (list acc r)) (t (funcall 'f (- n 1) (+ (if acc acc 0) n) n r)))) (list (f 200) (funcall 'f 3 1) (mapcar 'f '(1 2)))".
+Proof. vm_compute. reflexivity. Qed.
+
+Check C04_only_tail_self_calls_rewritten : forall fuel name body body',
+  mark_tail fuel name body = Ok body' -> mt_body name body body'.
